@@ -255,11 +255,18 @@ def returned_cases(ck, worlds, metrics_sets, knobs=None, detail_both=True):
             rj = outs.get((w["id"], mset, False))
             ck.evaluations += 1
             for r in (rd, rj):
+                if r is not None and "exception" in r and "has no pmappings" in r["exception"]:
+                    # the mapper's explicit "the mapspace is empty / over-constrained" answer: a legitimate outcome
+                    ck.extra["mapper_says_no_valid_mapping"] = ck.extra.get("mapper_says_no_valid_mapping", 0) + 1
+                    r["empty"] = True
+                    continue
                 if r is not None and "exception" in r:
                     ck.impl_errors += 1
                     if ck.impl_error_sample is None:
                         ck.impl_error_sample = {"case": {"world": w["id"], "metrics": mset}, "traceback": r["traceback"]}
             if "exception" in rd or (rj is not None and "exception" in rj):
+                continue
+            if rd.get("empty") or (rj is not None and rj.get("empty")):
                 continue
             jrows = {}
             if rj is not None:
@@ -279,7 +286,7 @@ def returned_cases(ck, worlds, metrics_sets, knobs=None, detail_both=True):
                 ok_small = all(_small(x) for x in (me, ml, je, jl))
                 info[cid] = {"world": w, "mset": mset, "row": row, "jrow": jrow, "nodes": nodes,
                              "tlc_numbers": ok_small}
-                if any(n["kind"] not in ("S", "T", "C") for n in nodes):
+                if any(n["kind"] not in ("S", "T", "P", "C") for n in nodes):
                     info[cid]["unsupported"] = True
                     continue
                 z = lambda x: [x.numerator, x.denominator] if ok_small else [0, 1]
